@@ -82,17 +82,22 @@ def sis_scenarios(seed, n_random, sizes=(2, 3, 4), unsorted_frac=0.0):
         dur = [[rng.randint(200, 1200) for _ in range(K)] for _ in range(n)]
         uns = rng.random() < unsorted_frac
         late = rng.random() < 0.3
+        selfloop = None
+        if rng.random() < 0.15:
+            # a node in contact with itself: its own listed attempts reinfect it when they arrive after its recovery
+            selfloop = rng.randrange(n)
+            adj[selfloop][selfloop] = 1
         delay = []
         for u in range(n):
             row = []
             for v in range(n):
                 cell = []
                 for k in range(K):
-                    if u == v or not adj[u][v]:
+                    if not adj[u][v]:
                         cell.append([])
                         continue
                     m = rng.choice([0, 1, 1, 2, 3])
-                    ds = sorted(rng.sample(range(1, dur[u][k]), min(m, dur[u][k] - 1)))
+                    ds = sorted(rng.sample(range(1, dur[u][k] * (3 if u == v else 1)), min(m, dur[u][k] - 1)))
                     if late and ds and rng.random() < 0.5:
                         # an attempt later than the source's own recovery (the property sets no such limit)
                         ds = sorted(ds + [dur[u][k] + rng.randint(1, 900)])
@@ -123,7 +128,7 @@ def sis_scenarios(seed, n_random, sizes=(2, 3, 4), unsorted_frac=0.0):
                     if delay[u][v][k] != sorted(delay[u][v][k]):
                         srt = 0
         out.append({"n": n, "adj": adj, "init": init, "k": K, "dur": dur, "delay": delay,
-                    "tmin": tmin, "tmax": tmax, "sorted": srt, "late": 1 if late else 0, "directed": directed,
+                    "tmin": tmin, "tmax": tmax, "sorted": srt, "late": 1 if (late or selfloop is not None) else 0, "directed": directed,
                     # the real call is made with all times shifted by -shift (negative start times); the semantics is shift invariant
                     "shift": rng.choice([0, 0, 700, 5000])})
     return out
